@@ -75,3 +75,176 @@ macro_rules! ew_instance {
         vk_harness!($name, $unwind, { ew_check($op, &[$($a),*], &[$($b),*], $full); });
     };
 }
+
+// ---------------------------------------------------------------------------------------------
+// C02 / C03: derivatives of the binary element-wise operations through a real backward pass.
+//   ensures  gradient(a)[p] = sum over output indices i that project onto p of seed[i] * df/dx,
+//            with the dimensions of a (C03: the adjoint is summed over the broadcast positions);
+//            likewise for b; an untracked operand receives nothing (C09).
+// Division uses divisors in {+-1, +-2, +-4} so that every quotient is exact.
+// ---------------------------------------------------------------------------------------------
+pub(super) fn ew_dfdx(op: u8, x: Float, y: Float) -> Float {
+    match op {
+        0 => 1.0,
+        1 => 1.0,
+        2 => y,
+        3 => 1.0 / y,
+        _ => EW_ALPHA,
+    }
+}
+pub(super) fn ew_dfdy(op: u8, x: Float, y: Float) -> Float {
+    match op {
+        0 => 1.0,
+        1 => -1.0,
+        2 => x,
+        3 => -x / (y * y),
+        _ => 1.0,
+    }
+}
+
+pub(super) fn ew_grad_check(op: u8, ad: &[usize], bd: &[usize], ta: bool, tb: bool) {
+    let a0 = mk(ad, sym_vec(numel(ad), sym_val));
+    let b0 = mk(bd, sym_vec(numel(bd), if op == 3 { sym_pow2 } else { sym_val }));
+    let a = if ta { a0.tracked() } else { a0 };
+    let b = if tb { b0.tracked() } else { b0 };
+    let od = bcast_dims(ad, bd).unwrap();
+    let r = ew_apply(op, &a, &b);
+    assert!(r.is_tracked.get() == (ta || tb), "C09 result tracked iff an operand is tracked");
+    let on = numel(&od);
+    let sv = sym_vec(on, sym_val);
+    r.backward(Some(mk(&od, sv.clone())));
+    let mut ea: Vec<Float> = vec![0.0; numel(ad)];
+    let mut eb: Vec<Float> = vec![0.0; numel(bd)];
+    let mut i = 0;
+    while i < on {
+        let oi = unravel(i, &od);
+        let pa = bcast_src(&oi, &od, ad);
+        let pb = bcast_src(&oi, &od, bd);
+        let (x, y) = (a.values[pa], b.values[pb]);
+        ea[pa] = ea[pa] + sv[i] * ew_dfdx(op, x, y);
+        eb[pb] = eb[pb] + sv[i] * ew_dfdy(op, x, y);
+        i += 1;
+    }
+    let ga = grad_of(&a);
+    let gb = grad_of(&b);
+    if ta {
+        let g = ga.unwrap();
+        assert!(dims_eq(&g.dimensions, ad), "C03 gradient has the operand's dimensions");
+        let mut p = 0;
+        while p < numel(ad) {
+            assert!(g.values[p] == ea[p], "C02/C03 gradient = transpose-Jacobian x seed, summed over the broadcast positions");
+            p += 1;
+        }
+    } else {
+        assert!(ga.is_none(), "C09 untracked operand receives no gradient");
+    }
+    if tb {
+        let g = gb.unwrap();
+        assert!(dims_eq(&g.dimensions, bd), "C03 gradient has the operand's dimensions");
+        let mut p = 0;
+        while p < numel(bd) {
+            assert!(g.values[p] == eb[p], "C02/C03 gradient = transpose-Jacobian x seed, summed over the broadcast positions");
+            p += 1;
+        }
+    } else {
+        assert!(gb.is_none(), "C09 untracked operand receives no gradient");
+    }
+    assert!(node_clean(&a) && node_clean(&b) && node_clean(&r), "C10 no residue");
+    assert!(a.is_tracked.get() == ta && b.is_tracked.get() == tb, "C09 flags restored");
+}
+
+macro_rules! ew_grad_instance {
+    ($name:ident, $unwind:expr, $op:expr, [$($a:expr),*], [$($b:expr),*], $ta:expr, $tb:expr) => {
+        vk_harness!($name, $unwind, { ew_grad_check($op, &[$($a),*], &[$($b),*], $ta, $tb); });
+    };
+}
+
+// ---------------------------------------------------------------------------------------------
+// C03: flatten_to (reduction of an adjoint to an array's dimensions) and the first / later
+// contribution handling when a broadcast operand is used several times in one graph.
+// ---------------------------------------------------------------------------------------------
+pub(super) fn flatten_check(sd: &[usize], td: &[usize]) {
+    let xv = sym_vec(numel(sd), sym_val);
+    let x = mk(sd, xv.clone());
+    let r = x.flatten_to(td);
+    assert!(dims_eq(&r.dimensions, td), "C03 reduced adjoint has exactly the target dimensions");
+    let tn = numel(td);
+    assert!(r.values.len() == tn, "C03 element count");
+    let mut e: Vec<Float> = vec![0.0; tn];
+    // right-align the target inside the source rank (a longer target only adds leading unit dims)
+    let mut i = 0;
+    while i < numel(sd) {
+        let si = unravel(i, sd);
+        // project: walk from the last dimension
+        let mut off = 0;
+        let mut stride = 1;
+        let mut k = 0;
+        while k < td.len() {
+            let tdim = td[td.len() - 1 - k];
+            if k < sd.len() && tdim != 1 {
+                off += si[sd.len() - 1 - k] * stride;
+            }
+            stride *= tdim;
+            k += 1;
+        }
+        e[off] = e[off] + xv[i];
+        i += 1;
+    }
+    let mut j = 0;
+    while j < tn {
+        assert!(r.values[j] == e[j], "C03 reduced adjoint = sum of the adjoint over the broadcast positions");
+        j += 1;
+    }
+}
+
+/// b (dims bd) is broadcast against a (dims ad) in `uses` different operations of one graph
+pub(super) fn ew_multiuse_check(ad: &[usize], bd: &[usize], uses: usize, passes: usize) {
+    let a = mk(ad, sym_vec(numel(ad), sym_val)).tracked();
+    let b = mk(bd, sym_vec(numel(bd), sym_val)).tracked();
+    let od = bcast_dims(ad, bd).unwrap();
+    // r = a*b (+ (a+b)) (+ (a-b)) ... : d r/d b = a (+1) (-1)
+    let mut r = &a * &b;
+    if uses >= 2 { r = &r + &(&a + &b); }
+    if uses >= 3 { r = &r + &(&b - &a); }
+    let on = numel(&od);
+    let sv = sym_vec(on, sym_val);
+    let mut p = 0;
+    while p < passes {
+        r.backward(Some(mk(&od, sv.clone())));
+        p += 1;
+    }
+    let mut ea: Vec<Float> = vec![0.0; numel(ad)];
+    let mut eb: Vec<Float> = vec![0.0; numel(bd)];
+    let mut i = 0;
+    while i < on {
+        let oi = unravel(i, &od);
+        let pa = bcast_src(&oi, &od, ad);
+        let pb = bcast_src(&oi, &od, bd);
+        let mut da = b.values[pb];
+        let mut db = a.values[pa];
+        if uses >= 2 { da = da + 1.0; db = db + 1.0; }
+        if uses >= 3 { da = da - 1.0; db = db + 1.0; }
+        ea[pa] = ea[pa] + (passes as Float) * sv[i] * da;
+        eb[pb] = eb[pb] + (passes as Float) * sv[i] * db;
+        i += 1;
+    }
+    let ga = grad_of(&a).unwrap();
+    let gb = grad_of(&b).unwrap();
+    assert!(dims_eq(&ga.dimensions, ad) && dims_eq(&gb.dimensions, bd), "C03 gradient has exactly the array's dimensions, for the first and every later contribution");
+    let mut p = 0;
+    while p < numel(ad) { assert!(ga.values[p] == ea[p], "C03 gradient of a = sum over broadcast positions and over all uses"); p += 1; }
+    p = 0;
+    while p < numel(bd) { assert!(gb.values[p] == eb[p], "C03 gradient of b = sum over broadcast positions and over all uses"); p += 1; }
+    assert!(node_clean(&a) && node_clean(&b), "C10 no residue");
+}
+
+macro_rules! flatten_instance {
+    ($name:ident, $unwind:expr, [$($s:expr),*], [$($t:expr),*]) => {
+        vk_harness!($name, $unwind, { flatten_check(&[$($s),*], &[$($t),*]); });
+    };
+}
+macro_rules! multiuse_instance {
+    ($name:ident, $unwind:expr, [$($a:expr),*], [$($b:expr),*], $uses:expr, $passes:expr) => {
+        vk_harness!($name, $unwind, { ew_multiuse_check(&[$($a),*], &[$($b),*], $uses, $passes); });
+    };
+}
